@@ -613,3 +613,148 @@ Proof.
 Qed.
 
 End Enc.
+
+(* ====================================================================== *)
+Section Enc2.
+Variable F : Type.
+Variable repr_float : F -> str.
+Variable read_float : str -> option F.
+Variable str_decimal : bool -> Z -> Z -> str.
+Variable dec_to_float : bool -> Z -> Z -> fval F.
+Hypothesis float_reads : forall f, read_float (repr_float f) = Some f.
+Hypothesis float_head : forall f, head_ok (repr_float f) = true.
+Hypothesis decimal_reads : forall neg c e, 0 <= c -> e <> 0 ->
+  read_decimal (str_decimal neg c e) = Some (if neg then - c else c, - e).
+Hypothesis decimal_head : forall neg c e, 0 <= c -> head_ok (str_decimal neg c e) = true.
+
+Notation enc := (encode F repr_float str_decimal dec_to_float false false).
+Notation enc_elems := (encode_elems F repr_float str_decimal dec_to_float false false).
+Notation enc_entries := (encode_entries F repr_float str_decimal dec_to_float false false).
+Notation tm := (term_of F repr_float str_decimal).
+Notation tms := (terms_of F repr_float str_decimal).
+Notation tmm := (tmap_of F repr_float str_decimal).
+Notation den := (denote F read_float).
+Notation den_list := (denote_list F read_float).
+Notation den_map := (denote_map F read_float).
+
+(* the denotation of the expected term is the prepared-path value *)
+Lemma denote_term_of :
+  (forall v : pv F, supported F v = true -> den (kind_of F v) (tm v) = Some (prepared F v)) /\
+  (forall l : pvs F, supporteds F l = true -> den_list (kinds_of F l) (tms l) = Some (prepared_list F l)) /\
+  (forall l : pvm F, supportedm F l = true -> den_map (kmap_of F l) (tmm l) = Some (prepared_map F l)).
+Proof.
+  apply pv_mutind; try (intros; reflexivity).
+  - (* VFloat *) intros sub [|n|f] _; try reflexivity. cbn. rewrite float_reads. reflexivity.
+  - (* VDecimal *) intros sub neg c e Hs. cbn in Hs. apply Z.leb_le in Hs. cbn [kind_of term_of prepared].
+    destruct (e =? 0) eqn:E.
+    + apply Z.eqb_eq in E. subst e. reflexivity.
+    + apply Z.eqb_neq in E. cbn [denote]. rewrite (decimal_reads neg c e Hs E). reflexivity.
+  - (* VSeq *) intros sub k l IH Hs. cbn in Hs. specialize (IH Hs). destruct k.
+    + change (den (kind_of F (VSeq sub SList l)) (tm (VSeq sub SList l))) with
+        (match den_list (kinds_of F l) (tms l) with Some l0 => Some (CList l0) | None => None end). rewrite IH. reflexivity.
+    + change (den (kind_of F (VSeq sub STuple l)) (tm (VSeq sub STuple l))) with
+        (match den_list (kinds_of F l) (tms l) with Some l0 => Some (CList l0) | None => None end). rewrite IH. reflexivity.
+    + change (den (kind_of F (VSeq sub SValueSeq l)) (tm (VSeq sub SValueSeq l))) with
+        (match den_list (kinds_of F l) (tms l) with Some l0 => Some (CTuple l0) | None => None end). rewrite IH. reflexivity.
+  - (* VSet *) intros sub l IH Hs. cbn in Hs. specialize (IH Hs).
+    change (den (kind_of F (VSet sub l)) (tm (VSet sub l))) with
+        (match den_list (kinds_of F l) (tms l) with Some l0 => Some (CSet l0) | None => None end). rewrite IH. reflexivity.
+  - (* VMap *) intros sub l IH Hs. cbn in Hs. specialize (IH Hs). destruct l as [|k v l']; [reflexivity|].
+    change (den (kind_of F (VMap sub (MCons k v l'))) (tm (VMap sub (MCons k v l')))) with
+        (match den_map (kmap_of F (MCons k v l')) (tmm (MCons k v l')) with Some l0 => Some (CMap l0) | None => None end).
+    rewrite IH. reflexivity.
+  - (* PCons *) intros v IHv l IHl Hs. cbn in Hs. apply andb_true_iff in Hs. destruct Hs as [Hv Hl].
+    change (den_list (kinds_of F (PCons v l)) (tms (PCons v l))) with
+      (match den (kind_of F v) (tm v), den_list (kinds_of F l) (tms l) with Some c, Some l0 => Some (c :: l0) | _, _ => None end).
+    rewrite (IHv Hv), (IHl Hl). reflexivity.
+  - (* MCons *) intros k IHk v IHv l IHl Hs. cbn in Hs. apply andb_true_iff in Hs. destruct Hs as [Hs Hl].
+    apply andb_true_iff in Hs. destruct Hs as [Hk Hv].
+    change (den_map (kmap_of F (MCons k v l)) (tmm (MCons k v l))) with
+      (match den (kind_of F k) (tm k), den (kind_of F v) (tm v), den_map (kmap_of F l) (tmm l) with
+       | Some a, Some b, Some l0 => Some ((a, b) :: l0) | _, _, _ => None end).
+    rewrite (IHk Hk), (IHv Hv), (IHl Hl). reflexivity.
+Qed.
+
+(* fuel: the length of the literal is enough *)
+Lemma head_len : forall s, head_ok s = true -> (1 <= length s)%nat.
+Proof. intros [|c s] H; [discriminate|cbn; lia]. Qed.
+
+Lemma need_le_len :
+  (forall v : pv F, supported F v = true -> (need F v <= length (enc v))%nat) /\
+  (forall l : pvs F, supporteds F l = true -> (needs F l <= S (length (enc_elems l)))%nat) /\
+  (forall l : pvm F, supportedm F l = true -> (needm F l <= S (length (enc_entries l)))%nat).
+Proof.
+  apply pv_mutind.
+  1-11: intros; apply head_len;
+    match goal with |- head_ok (encode _ _ _ _ _ _ ?v) = true => apply (enc_head F repr_float str_decimal dec_to_float float_head decimal_head v); assumption end.
+  - (* VSeq *) intros sub k l IH Hs. cbn in Hs. specialize (IH Hs).
+    change (need F (VSeq sub k l)) with (S (needs F l)).
+    destruct k.
+    + change (enc (VSeq sub SList l)) with (91 :: enc_elems l ++ [93]). cbn [length]. rewrite app_length. cbn [length]. lia.
+    + change (enc (VSeq sub STuple l)) with (91 :: enc_elems l ++ [93]). cbn [length]. rewrite app_length. cbn [length]. lia.
+    + change (enc (VSeq sub SValueSeq l)) with (40 :: enc_elems l ++ [41]). cbn [length]. rewrite app_length. cbn [length]. lia.
+  - intros sub l IH Hs. cbn in Hs. specialize (IH Hs). change (need F (VSet sub l)) with (S (needs F l)).
+    rewrite enc_set. cbn [length]. rewrite app_length. cbn [length]. lia.
+  - intros sub l IH Hs. cbn in Hs. specialize (IH Hs). change (need F (VMap sub l)) with (S (needm F l)).
+    rewrite enc_map. cbn [length]. rewrite app_length. cbn [length]. lia.
+  - intros _. cbn. lia.
+  - intros v IHv l IHl Hs. cbn in Hs. apply andb_true_iff in Hs. destruct Hs as [Hv Hl]. specialize (IHv Hv). specialize (IHl Hl).
+    rewrite needs_cons. destruct l as [|v2 l2].
+    + rewrite enc_elems_1. change (needs F PNil) with O. lia.
+    + rewrite enc_elems_2. rewrite !app_length. unfold sep. cbn [length]. lia.
+  - intros _. cbn. lia.
+  - intros k IHk v IHv l IHl Hs. cbn in Hs. apply andb_true_iff in Hs. destruct Hs as [Hs Hl].
+    apply andb_true_iff in Hs. destruct Hs as [Hk Hv]. specialize (IHk Hk). specialize (IHv Hv). specialize (IHl Hl).
+    rewrite needm_cons. destruct l as [|k2 v2 l2].
+    + rewrite enc_entries_1. rewrite !app_length. unfold kvsep. cbn [length]. change (needm F MNil) with O. lia.
+    + rewrite enc_entries_2. rewrite !app_length. unfold kvsep, sep. cbn [length]. lia.
+Qed.
+
+End Enc2.
+
+Section Enc3.
+Variable F : Type.
+Variable repr_float : F -> str.
+Variable str_decimal : bool -> Z -> Z -> str.
+Variable dec_to_float : bool -> Z -> Z -> fval F.
+Notation encode_with := (encode F repr_float str_decimal dec_to_float).
+
+(* without subclass instances the exact-type dispatch and the MRO dispatch emit the same text *)
+Lemma exact_same :
+  (forall v, no_sub F v = true -> encode_with true false v = encode_with false false v) /\
+  (forall l, no_subs F l = true -> encode_elems F repr_float str_decimal dec_to_float true false l = encode_elems F repr_float str_decimal dec_to_float false false l) /\
+  (forall l, no_subm F l = true -> encode_entries F repr_float str_decimal dec_to_float true false l = encode_entries F repr_float str_decimal dec_to_float false false l).
+Proof.
+  apply pv_mutind; try (intros; reflexivity).
+  - intros sub f H. cbn in H. apply negb_true_iff in H. subst. reflexivity.
+  - intros sub neg c e H. cbn in H. apply negb_true_iff in H. subst. reflexivity.
+  - intros sub s H. cbn in H. apply negb_true_iff in H. subst. reflexivity.
+  - intros sub bs H. cbn in H. apply negb_true_iff in H. subst. reflexivity.
+  - intros sub k text H. cbn in H. apply negb_true_iff in H. subst. reflexivity.
+  - intros sub ms H. cbn in H. apply negb_true_iff in H. subst. reflexivity.
+  - intros sub k l IH H. cbn in H. apply andb_true_iff in H. destruct H as [H Hl]. apply negb_true_iff in H. subst.
+    specialize (IH Hl). destruct k.
+    + change (encode_with true false (VSeq false SList l)) with (91 :: encode_elems F repr_float str_decimal dec_to_float true false l ++ [93]). rewrite IH. reflexivity.
+    + change (encode_with true false (VSeq false STuple l)) with (91 :: encode_elems F repr_float str_decimal dec_to_float true false l ++ [93]). rewrite IH. reflexivity.
+    + change (encode_with true false (VSeq false SValueSeq l)) with (40 :: encode_elems F repr_float str_decimal dec_to_float true false l ++ [41]). rewrite IH. reflexivity.
+  - intros sub l IH H. cbn in H. apply andb_true_iff in H. destruct H as [H Hl]. apply negb_true_iff in H. subst.
+    change (encode_with true false (VSet false l)) with (123 :: encode_elems F repr_float str_decimal dec_to_float true false l ++ [125]). rewrite (IH Hl). reflexivity.
+  - intros sub l IH H. cbn in H. apply andb_true_iff in H. destruct H as [H Hl]. apply negb_true_iff in H. subst.
+    change (encode_with true false (VMap false l)) with (123 :: encode_entries F repr_float str_decimal dec_to_float true false l ++ [125]). rewrite (IH Hl). reflexivity.
+  - intros v IHv l IHl H. cbn in H. apply andb_true_iff in H. destruct H as [Hv Hl]. specialize (IHv Hv). specialize (IHl Hl).
+    destruct l as [|v2 l2].
+    + change (encode_elems F repr_float str_decimal dec_to_float true false (PCons v PNil)) with (encode_with true false v). rewrite IHv. reflexivity.
+    + change (encode_elems F repr_float str_decimal dec_to_float true false (PCons v (PCons v2 l2))) with
+        (encode_with true false v ++ sep ++ encode_elems F repr_float str_decimal dec_to_float true false (PCons v2 l2)).
+      rewrite IHv, IHl. reflexivity.
+  - intros k IHk v IHv l IHl H. cbn in H. apply andb_true_iff in H. destruct H as [H Hl]. apply andb_true_iff in H. destruct H as [Hk Hv].
+    specialize (IHk Hk). specialize (IHv Hv). specialize (IHl Hl). destruct l as [|k2 v2 l2].
+    + change (encode_entries F repr_float str_decimal dec_to_float true false (MCons k v MNil)) with
+        (encode_with true false k ++ kvsep ++ encode_with true false v). rewrite IHk, IHv. reflexivity.
+    + change (encode_entries F repr_float str_decimal dec_to_float true false (MCons k v (MCons k2 v2 l2))) with
+        (encode_with true false k ++ kvsep ++ encode_with true false v ++ sep ++ encode_entries F repr_float str_decimal dec_to_float true false (MCons k2 v2 l2)).
+      rewrite IHk, IHv, IHl. reflexivity.
+Qed.
+
+
+End Enc3.
